@@ -153,24 +153,40 @@ func c05Run(run *vfRun, sc vfbScenario) {
 				return
 			}
 			run.Count("converged_cases", 1)
-			// steady state: every due round is produced by all, one after the other
+			// steady state: every due round keeps being produced by all (gaps are C02's subject; here: nobody
+			// falls behind again). Four periods, then a bounded number of 1 s steps to be level with the clock.
 			for i := 0; i < 4; i++ {
 				nt.Step(nt.cfg.Period)
-				if w, who := behind(); w > 0 {
-					time.Sleep(300 * time.Millisecond)
-					nt.Settle()
-					if w2, _ := behind(); w2 > 0 {
-						run.Violation(fmt.Sprintf("C05/due-round-not-produced-after-convergence/%s/%s", kinds, nt.cfg.Backend),
-							fmt.Sprintf("period step %d after convergence: %v", i, who), info)
-						return
+			}
+			level := false
+			for s := 0; s < 2*nt.cfg.N+10 && !level; s++ {
+				if w, _ := behind(); w == 0 {
+					level = true
+					break
+				}
+				nt.Step(q)
+			}
+			if !level {
+				time.Sleep(time.Second)
+				for s := 0; s < 2*nt.cfg.N+10 && !level; s++ {
+					nt.Step(q)
+					time.Sleep(30 * time.Millisecond)
+					if w, _ := behind(); w == 0 {
+						level = true
 					}
 				}
+			}
+			if !level {
+				_, who := behind()
+				run.Violation(fmt.Sprintf("C05/due-round-not-produced-after-convergence/%s/%s", kinds, nt.cfg.Backend),
+					fmt.Sprintf("4 periods and %d logical seconds after convergence: %v", 2*(2*nt.cfg.N+10), who), info)
+				return
 			}
 			// restarted nodes contribute again: they emitted a partial for one of the last rounds
 			emu.Lock()
 			defer emu.Unlock()
 			for _, n := range hs {
-				if restarted[n.pos] {
+				if restarted[n.pos] && nt.cfg.N > 1 { // a single-node group has nobody to send partials to
 					run.Count("restarted_nodes_checked", 1)
 					if lastEmit[n.pos]+3 < nt.Head(n) {
 						run.Violation(fmt.Sprintf("C05/restarted-node-does-not-contribute/%s", nt.cfg.Backend),
